@@ -1,2 +1,4 @@
 import MimicProofs.Control
 import MimicProofs.Framing
+import MimicProofs.Wire
+import MimicProofs.Results
